@@ -171,24 +171,26 @@ def specGetItemLoop (a : AState) (h : CH) (name : Option Name) : Except Code LH 
 def specPrune (a : AState) (h : CH) : AState × Except Code Unit :=
   ({ a with loops := a.loops.filter (fun y => !(y.cid == h.id && y.packets.isEmpty)) }, .ok ())
 
-/-- cif_create_block: a new, empty block under the spelling given, unless the code is invalid or (normalised) already in use -/
-def specCreateBlock (a : AState) (name : Option Name) : AState × Except Code CH :=
+/-- cif_create_block: a new, empty block under the spelling given, unless the code is invalid or (normalised) already in use.
+    `lenient` (cif_create_block_internal, the parser's call after its error callback accepted CIF_INVALID_BLOCKCODE, and for the
+    anonymous block): the validity of the code is not examined; everything else as documented -/
+def specCreateBlock (a : AState) (name : Option Name) (lenient : Bool := false) : AState × Except Code CH :=
   match name with
   | none => (a, .error CIF_ARGUMENT_ERROR)
   | some n =>
-    if !n.valid then (a, .error CIF_INVALID_BLOCKCODE)
+    if !lenient && !n.valid then (a, .error CIF_INVALID_BLOCKCODE)
     else if a.blocks.any (fun b => b.name == n.key) then (a, .error CIF_DUP_BLOCKCODE)
     else ({ a with containers := a.containers ++ [{ id := a.nextId, nextLoopNum := 0 }], nextId := a.nextId + 1,
                    blocks := a.blocks ++ [{ cid := a.nextId, name := n.key, nameOrig := n.orig }] },
           .ok { id := a.nextId, code := n.orig, isBlock := true })
 
 /-- cif_container_create_frame: a new, empty save frame in the container, unless the code is invalid or (normalised) already in use
-    in this container -/
-def specCreateFrameH (a : AState) (h : CH) (name : Option Name) : AState × Except Code CH :=
+    in this container; `lenient` (cif_container_create_frame_internal with lenient = 1): the validity of the code is not examined -/
+def specCreateFrameH (a : AState) (h : CH) (name : Option Name) (lenient : Bool := false) : AState × Except Code CH :=
   match name with
   | none => (a, .error CIF_INVALID_FRAMECODE)
   | some n =>
-    if !n.valid then (a, .error CIF_INVALID_FRAMECODE)
+    if !lenient && !n.valid then (a, .error CIF_INVALID_FRAMECODE)
     else if a.frames.any (fun f => f.parent == h.id && f.name == n.key) then (a, .error CIF_DUP_FRAMECODE)
     else ({ a with containers := a.containers ++ [{ id := a.nextId, nextLoopNum := 0 }], nextId := a.nextId + 1,
                    frames := a.frames ++ [{ cid := a.nextId, parent := h.id, name := n.key, nameOrig := n.orig }] },
@@ -557,17 +559,17 @@ def specStep (a : AWorld) : Op → Option (AWorld × Result)
     | some (e, st) =>
       let (st1, r) := specPrune st e.h
       some (a.setCif e.cif st1, { rc := some (codeOf r) })
-  | .mkBlock c n =>
+  | .mkBlock c n lenient =>
     match a.liveC c with
     | none => some ({ a with chs := a.chs ++ [none] }, skipped)
     | some st =>
-      let (st1, r) := specCreateBlock st n
+      let (st1, r) := specCreateBlock st n lenient
       some ({ (a.setCif c st1) with chs := a.chs ++ [match r with | .ok h => some { cif := c, h := h } | .error _ => none] }, { rc := some (codeOf r) })
-  | .mkFrame h n =>
+  | .mkFrame h n lenient =>
     match a.liveH h with
     | none => some ({ a with chs := a.chs ++ [none] }, skipped)
     | some (e, st) =>
-      let (st1, r) := specCreateFrameH st e.h n
+      let (st1, r) := specCreateFrameH st e.h n lenient
       some ({ (a.setCif e.cif st1) with chs := a.chs ++ [match r with | .ok h' => some { cif := e.cif, h := h' } | .error _ => none] }, { rc := some (codeOf r) })
   | .mkLoop h cat names =>
     match a.liveH h with
